@@ -11,6 +11,7 @@
 import codecs
 import contextlib
 import io
+import sys
 import shutil
 import signal
 import tempfile
@@ -666,6 +667,25 @@ def run_cli_honoured(tier, rnd, st, res, field='c14'):
                     if open(out, 'rb').read() != open(refp, 'rb').read():
                         res.violations.append(dict(property_field='c14', verdict='cli-argument-not-honoured:file-differs-from-the-file-the-API-writes-with-these-options',
                                                    call='segno.cli.main(' + repr(flags + ['--output', f'<file>.{ext}', 'SEGNO 14']) + ')', known_id=None))
+    if field == 'c14':
+        # the tool run as a script (`python -m segno.cli`): a refusal raised while creating the symbol is exit status 1 with the
+        # library message on stderr and no traceback; a successful run is status 0
+        import subprocess
+        env = dict(os.environ, PYTHONPATH=os.path.dirname(os.path.dirname(os.path.abspath(segno.__file__))))
+        for argv, want in ((['--version', 'M2', '--error', 'H', 'x'], 1), (['--version', '41', 'x'], 1), (['--pattern', '8', 'x'], 1),
+                           (['--version', 'M1', '--seq', 'x'], 1), (['--version', '1', 'ok'], 0)):
+            pr = subprocess.run([sys.executable, '-m', 'segno.cli'] + argv, env=env, capture_output=True, text=True, timeout=60)
+            res.evaluations += 1
+            res.nontrivial.add(('cli-as-script', tuple(argv)))
+            bad = None
+            if want == 1 and pr.returncode != 1:
+                bad = f'refusal-reported-with-exit-status-{pr.returncode}'
+            elif want == 1 and ('Traceback' in pr.stderr or not pr.stderr.strip()):
+                bad = 'refusal-without-message-or-with-traceback'
+            elif want == 0 and pr.returncode != 0:
+                bad = f'accepted-call-exit-status-{pr.returncode}'
+            if bad:
+                res.violations.append(dict(property_field='c14', verdict='cli-as-script:' + bad, call='python -m segno.cli ' + ' '.join(argv), known_id=None))
     for call, o in zip(meta, run_lines_parallel(JUDGE, lines, jobs=2)):
         kv = parse_kv(o)
         bad = [f'{k}={kv.get(k)}' for k in (('c06', 'c04', 'c05') if field == 'c14' else (field,)) if kv.get(k, '-') not in ('ok', '-')]
